@@ -25,6 +25,11 @@ CHECKS = {
          "For each limit configuration (stream / connection / send windows and stream-count limits at 0, 1, 2, 63, 64, 16383, 16384, run-time window and stream-limit changes, reset mid-stream) every execution with <=k dup/delay/drop deviations in the window where MAX_* frames travel is run; credit is computed from the peer's transport parameters (independently decoded) and the MAX_* frames in datagrams actually delivered, use from the STREAM/RESET_STREAM frames the sender emitted; use <= credit is checked at every emission, and the API answers of write()/open() are audited against the probe.",
          "A MAX_* frame counts as arrived when its datagram is delivered; 0-RTT judged in C17; vacuity guard requires use == credit to have occurred.",
          "DESIGN.md#c05"),
+ "C06": ("E3", "exploration",
+         "exhaustive operation-sequence enumeration (puppet frames x local application operations) against a reference model of advertised limits and consumed data",
+         "Every sequence of length 3 (quick) / 4 (thorough) over an alphabet of puppet frames probing each limit from one below to one above (STREAM offsets, FINs, RESET_STREAM final sizes, stream indices, DATAGRAM sizes, CRYPTO offsets) interleaved with local read / stop / set_receive_window / set_max_concurrent_streams / datagram-recv operations, for four limit configurations, is executed against a real endpoint whose honest peer was frozen after the handshake. A reference model tracks what the victim advertised on the wire and what its application consumed or discarded: in-limit frames must be accepted, over-limit frames must close with the code of a violated limit, reads must return exactly the model's bytes, every MAX_DATA / MAX_STREAM_DATA must be <= consumed + window, received data never exceeds the limit.",
+         "Between the wire-advertised limit and the limit the endpoint has already decided on (credit too small to be worth a frame, MAX_STREAMS still queued) either answer is accepted; final-size enforcement is not demanded for streams the application already finished (RFC 9000 4.5).",
+         "DESIGN.md#c06"),
  "C07": ("E3", "fault_enumeration",
          "exhaustive drop-mask / vanish-point / spoofed-Initial / inciting-size enumeration on the real server endpoint with a byte ledger",
          "Per remote address the harness sums bytes in datagrams delivered to and emitted by the server endpoint; for every datagram emitted before the address is validated (genuine Handshake packet, validated token, echoed PATH_RESPONSE) bytes sent before it must be < 3 x bytes received. Enumerated: all 2^K drop masks of the first K datagrams for certificate size x MTU x Retry x GSO configurations, the client vanishing after every step, single dup/delay of each early datagram, spoofed Initials (sizes 1199/1200/1201/1452, 1-3 copies, with coalesced garbage tails), inciting datagrams of every size 1..=1300 for stateless resets incl. the rate limit, and Initials of every size 1..=1199.",
